@@ -148,14 +148,19 @@ mut("c18_pinned_piece_counts", SW, "    let moves = game.moves().to_vec();\n\n  
 TT = "src/engine/transposition_table.rs"
 TR = "src/engine/search/transposition.rs"
 mut("c19_get_compares_low_bits", TT, "                if entry.key == *key {", "                if entry.key.0 & 0xffff_ffff_ffff == key.0 & 0xffff_ffff_ffff {", ["C19"])
-mut("c19_depth_ge", TR, "        if new.depth > self.depth {\n            return true;\n        }\n\n        // If the new node is exact, always store it\n        if new.bound == NodeBound::Exact {\n            return true;\n        }\n\n        // Don't overwrite exact nodes\n        self.bound != NodeBound::Exact", "        if new.depth > self.depth {\n            return true;\n        }\n\n        // If the new node is exact, always store it\n        if new.bound == NodeBound::Exact {\n            return true;\n        }\n\n        // Don't overwrite exact nodes\n        self.bound != NodeBound::Exact && new.depth == self.depth", ["C19"])
+# the statement is silent about a non-exact old entry of the same search: keeping it is admitted by the model
+mut("c19_nonexact_old_entry_kept_if_new_shallower", TR, "        // Don't overwrite exact nodes\n        self.bound != NodeBound::Exact", "        // Don't overwrite exact nodes\n        self.bound != NodeBound::Exact && new.depth == self.depth", [], ["C19"])
+mut("c19_depth_ge", TR, "        if new.depth > self.depth {", "        if new.depth >= self.depth {", ["C19"])
 mut("c19_occupied_counts_every_insert", TT, "                if existing_data.data.should_overwrite_with(&data) {\n                    self.data[idx]", "                self.occupied += 1;\n                if existing_data.data.should_overwrite_with(&data) {\n                    self.data[idx]", ["C19"])
 mut("c19_old_search_entry_kept_if_deeper", TR, "        if new.age != self.age {\n            return true;\n        }", "        if new.age != self.age && new.depth + 3 >= self.depth {\n            return true;\n        }", ["C19"])
 
 SEE = "src/engine/see.rs"
 mut("c20_rook_value", SEE, "        Rook => 500,", "        Rook => 300,", ["C20"])
-mut("c20_no_diagonal_xray_after_pawn", SEE, "        if attacker == PieceKind::Pawn\n            || attacker == PieceKind::Bishop", "        if attacker == PieceKind::Bishop", ["C20"])
-mut("c20_king_captures_into_defence", SEE, "        if attacker == PieceKind::King && (attackers & board.occupancy_for(color.other())).any() {\n            break;\n        }", "", ["C20"])
+# equivalent at threshold 0 (parity of the piece values: once a pawn has recaptured the verdict is decided)
+mut("c20_no_diagonal_xray_after_pawn", SEE, "        if attacker == PieceKind::Pawn\n            || attacker == PieceKind::Bishop", "        if attacker == PieceKind::Bishop", [], ["C20"])
+# equivalent for the verdict: a king that captures into defence is recaptured (value 10000), which leaves the
+# side that was losing without the capture still losing
+mut("c20_king_captures_into_defence", SEE, "        if attacker == PieceKind::King && (attackers & board.occupancy_for(color.other())).any() {\n            break;\n        }", "", [], ["C20"])
 mut("c20_mover_needs_strictly_positive", SEE, "(color == game.player && score >= Eval(0))", "(color == game.player && score > Eval(0))", ["C20"])
 mut("c20_revert_d9", SEE, "                    Player::Black => potential_attacker_squares\n                        .flip_vertically()\n                        .lsb()\n                        .flip_vertically()\n                        .single(),", "                    Player::Black => potential_attacker_squares.lsb().single(),", ["C20"])
 
